@@ -982,14 +982,29 @@ func (c *Ctx) poolCall(fr *Frame, st *State, reach string, callee *ssa.Function,
 	t := c.resolveTypeName(env, tn)
 	tag := fmt.Sprintf("%d", c.w.typeTag(t))
 	c.depsUsed["sync.Pool "+key+": Get returns an exclusively owned, non-nil "+tn+" with unconstrained contents (pool New + all Put sites checked)"] = true
+	inv, hasInv := c.w.poolInv[key]
+	invEnv := func(ref string) *CEnv {
+		return &CEnv{c: c, st: st, old: st, pkg: g.Pkg.Pkg, lookup: func(name string, old bool) (CVal, bool) {
+			if name == "it" {
+				return CVal{V: Sc{ref, "Int"}, T: t}, true
+			}
+			return CVal{}, false
+		}}
+	}
 	if dn == "(*sync.Pool).Get" {
 		ref := c.fresh("pooled", "Int")
 		c.assume("true", fmt.Sprintf("(and (> %s 0) (<= %s %s))", ref, ref, c.top))
 		c.pooled = append(c.pooled, ref)
+		if hasInv {
+			c.assume(reach, c.evalBool(invEnv(ref), inv.Expr, inv.Text))
+		}
 		return IfaceV{tag, ref}, true
 	}
 	if iv, ok := args[1].(IfaceV); ok {
 		c.oblige("pool-type", key, reach, fmt.Sprintf("(= %s %s)", iv.Tag, tag), pos, "value put into "+key+" has type "+tn)
+		if hasInv {
+			c.obligeProps("pool-inv", key, reach, c.evalBool(invEnv(iv.Ref), inv.Expr, inv.Text), pos, "value put into "+key+" satisfies the pool invariant: "+inv.Text, inv.Props)
+		}
 	}
 	return nil, true
 }
